@@ -1,4 +1,103 @@
-(** C08 — placeholder while the proofs are being written. *)
-From Coq Require Import List Arith Bool.
-From P9V Require Import Refs.Model Refs.PathFS.
+(** C08 — path coherence and fencing.  Statements only; proofs are in
+    Refs/FenceProofs.v.  All theorems hold for every backend and every state.
+
+    Proved: fencing.  A request through a fid whose path node carries the
+    deleted mark is refused by the guard - EINVAL, ENOENT for a walk to a child -
+    and the handler body makes no backend call (the state is exactly
+    LookupFID; deferred DecRef, which calls nothing while the fid table holds the
+    fidRef); markChildDeleted (Tunlinkat, Tremove, rename over an existing name)
+    leaves the name without a path node, so a fid bound later to a new file of
+    that name gets a fresh node that is not deleted.  Tgetattr, Tread/Twrite/
+    Tfsync and Tclunk do not read the deleted mark at all (Refs/Model.v:
+    do_getattr, do_io, do_clunk).
+    NOT proved in Coq (covered on every run by the differential only: the model,
+    composed with PathFS, is compared with the real server and the Go twin of
+    PathFS step by step, GetAttr through every bound fid after each change, and
+    the server's path tree is dumped and compared, childRefs against
+    childRefNames included): C08_tree_inv, C08_coherent, and C08_notified beyond
+    the statement below; that notifyDelete marks the whole subtree of the victim. *)
+From Coq Require Import List Arith Bool ZArith.
+From P9V Require Import Refs.Model Refs.PathFS Refs.Cases Refs.RefProofs Refs.FenceProofs.
 Import ListNotations.
+
+(** Tlopen, Tlcreate, Tmkdir/Tmknod/Tsymlink, Tsetattr, Treaddir, Tunlinkat, Txattrwalk, Txattrcreate *)
+Theorem C08_fenced : forall B bstep o c fid r s,
+  fenced1 o c fid -> alookup peqb (c, fid) (s_fids B s) = Some r -> is_deleted B s r = true ->
+  step B bstep o s = (rerr EINVAL, release B bstep r (hold B r s)).
+Proof. exact fenced_single. Qed.
+Print Assumptions C08_fenced.
+
+Theorem C08_fenced_walk : forall B bstep c fid newfid nm rest g r s,
+  alookup peqb (c, fid) (s_fids B s) = Some r -> is_deleted B s r = true ->
+  is_dir (fr_mode (get_ref B s r)) = true -> fr_opened (get_ref B s r) && (fid =? newfid) = false ->
+  step B bstep (OWalk c fid newfid (nm :: rest) g) s =
+    (rerr ENOENT, release B bstep r (release B bstep r (hold B r (hold B r s)))).
+Proof. exact fenced_walk. Qed.
+Print Assumptions C08_fenced_walk.
+
+(** the bracket LookupFID; deferred DecRef reaches the backend with nothing *)
+Theorem C08_fenced_no_backend_call : forall B bstep r s,
+  (0 < fr_refs (get_ref B s r))%Z -> s_log B (release B bstep r (hold B r s)) = s_log B s.
+Proof. exact bracket_no_call. Qed.
+Print Assumptions C08_fenced_no_backend_call.
+
+(** PARTIAL (two-fid requests): the guard of Tlink; Trename/Trenameat have the same guard
+    ([is_deleted] of either fid first, Refs/Model.v do_rename/do_renameat) - not restated. *)
+Theorem C08_fenced_link_partial : forall B bstep s r t nm,
+  is_deleted B s r = true ->
+  guarded_call B bstep r (dir_guard B s r) (BLink (fr_file (get_ref B s r)) (fr_file (get_ref B s t)) nm) s = (rerr EINVAL, s).
+Proof. exact fenced_link_body. Qed.
+Print Assumptions C08_fenced_link_partial.
+
+Theorem C08_unlinked_name_has_no_node : forall B bstep n nm s,
+  n < length (s_nodes B s) ->
+  alookup Nat.eqb nm (pn_nodes (get_node B (mark_child_deleted B bstep n nm s) n)) = None.
+Proof. exact unlinked_name_has_no_node. Qed.
+Print Assumptions C08_unlinked_name_has_no_node.
+
+Theorem C08_later_binding_fresh : forall B n nm s,
+  alookup Nat.eqb nm (pn_nodes (get_node B s n)) = None -> n < length (s_nodes B s) ->
+  let '(c, s') := path_node_for B n nm s in
+  c = length (s_nodes B s) /\ pn_deleted (get_node B s' c) = false.
+Proof. exact fresh_node_not_deleted. Qed.
+Print Assumptions C08_later_binding_fresh.
+
+(** PARTIAL: C08_notified for the refs AT the moved entry only: each is told its new parent File and
+    name.  Missing: that these are exactly the refs at the entry, the refs below it, parents first. *)
+Theorem C08_notified_partial : forall B bstep tgt newnm r p s,
+  fr_parent (get_ref B s r) = Some p ->
+  exists s3, hd_error (s_log B (rename_cb B bstep tgt newnm r s)) =
+             Some (BRenamed (fr_file (get_ref B s3 r)) (fr_file (get_ref B s3 tgt)) newnm).
+Proof. exact rename_cb_notifies. Qed.
+Print Assumptions C08_notified_partial.
+
+(** Concrete history (a test, not the claim): /1/2 with fids on both levels and a file below;
+    the ancestor is renamed, then the subtree is moved up, then unlinked.  Every GetAttr reaches the
+    object the fid was bound to (inode 2, 3, 4); after the unlink the fid below is fenced (EINVAL,
+    Tlopen) while GetAttr through it still reaches the backend (ENOENT); a new file of the same name
+    is unaffected. *)
+Definition c08_sample : list op :=
+  [OAttach 0 0 []; OMk 0 0 0 1; OWalk 0 0 1 [1] false; OMk 0 0 1 2; OWalk 0 1 2 [2] false; OWalk 0 2 3 [] false; OCreate 0 3 3 2;
+   ORenameAt 0 0 1 0 0; OGetAttr 0 1; OGetAttr 0 2; OGetAttr 0 3;
+   ORenameAt 0 1 2 0 2; OGetAttr 0 2; OGetAttr 0 3;
+   OUnlinkAt 0 0 2; OOpen 0 2 0; OGetAttr 0 3; OMk 0 0 0 2; OWalk 0 0 4 [2] false; OGetAttr 0 4; OOpen 0 4 0].
+Example C08_sample_ok :
+  map (fun r => r) (skipn 7 (fst (run pfs pfs_step c08_sample (init_state pfs (pfs_init true []))))) =
+  [(0, 0); (0, 2); (0, 3); (0, 4);  (0, 0); (0, 3); (0, 4);  (0, 0); (EINVAL, 0); (ENOENT, 0); (0, 0); (0, 1); (0, 5); (0, 5)].
+Proof. vm_compute. reflexivity. Qed.
+
+(** REFUTED at full strength (finding C08:xattr-clone-unregistered, fixes/C08-xattr-clone-unregistered.md,
+    reproduced on the real server by the harness on every run): the clone of an xattr fid is a fidRef
+    without parent that owns a File and is not registered in the path tree, so a rename of the entry is
+    never told to it.  Witness: fid 3 is bound to inode 2 (GetAttr says so), inode 2 stays reachable,
+    yet after the rename GetAttr through fid 3 fails with ENOENT while fids 1 and 2 still reach inode 2.
+    C08_coherent can therefore only hold for fids that are not clones of xattr fids. *)
+Definition c08_xattr_clone : list op :=
+  [OAttach 0 0 []; OMk 0 0 0 1; OWalk 0 0 1 [1] false; OXattrWalk 0 1 2; OWalk 0 2 3 [] false; OGetAttr 0 3;
+   ORenameAt 0 0 1 0 2; OGetAttr 0 1; OGetAttr 0 2; OGetAttr 0 3].
+Theorem C08_coherent_refuted :
+  exists ops, let '(replies, s) := run pfs pfs_step ops (init_state pfs (pfs_init true [])) in
+    nth 5 replies (1, 0) = (0, 2) /\ alive (s_be pfs s) 2 = true /\
+    nth 7 replies (1, 0) = (0, 2) /\ nth 9 replies (0, 0) = (ENOENT, 0) /\ s_panic pfs s = false.
+Proof. exists c08_xattr_clone. vm_compute. repeat split; reflexivity. Qed.
+Print Assumptions C08_coherent_refuted.
